@@ -99,7 +99,7 @@ func TestVerifC12Limits(t *testing.T) {
 		}
 	}
 	rng := l.Rand("c12gen")
-	ngen := l.Pick(40, 1200)
+	ngen := l.Pick(40, 12000)
 	for i := 0; i < ngen; i++ {
 		pick := func(v ...uint64) uint64 { return v[rng.IntN(len(v))] }
 		p := &c12P{
@@ -580,7 +580,11 @@ func runC12(l *evlog.Log, c *evlog.Case, cs *c12Case, idx int) {
 		}
 		verified = int64(adv.IdleMs)
 	}
-	c.Eval(fmt.Sprintf("%s/%s/%s/%v", specName, cs.Driver, cs.Config, verified > 0))
+	fpSpec := specName
+	if cs.Gen != nil {
+		fpSpec = fmt.Sprintf("gen%+v", *cs.Gen)
+	}
+	c.Eval(fmt.Sprintf("%s/%s/%s/%v", fpSpec, cs.Driver, cs.Config, verified > 0))
 	l.Count("driver_"+cs.Driver, 1)
 	c.Sample(cs.Driver, map[string]any{"case": cs.Name, "advertised": adv, "exercised": verified})
 }
